@@ -14,7 +14,7 @@ import vlib
 
 QTY = [0, 1, 7, 8, 9, 123, 124, 125, 126, 1968, 1969, 1976, 1977, 2000, 2001, 2008]
 KNOWN_FC = [1, 2, 3, 4, 5, 6, 15, 16]
-SPEC_MODULES = ['Base.Show', 'Base.ServerTypes', 'Base.ServerRun', 'Spec.Modbus', 'Model.ServerRender']
+SPEC_MODULES = ['Base.Show', 'Base.ServerTypes', 'Base.ServerRun', 'Model.Retry', 'Model.RtuServerLoop', 'Spec.Modbus', 'Model.ServerRender']
 MODULES = SPEC_MODULES + ['Model.Server', 'Model.ServerRun', 'Model.ServerExec']
 STATE = {'model_ok': True}
 
@@ -23,7 +23,7 @@ def prepare(ctx):
     """translate, build the Spec evaluator and the model, prove, build the harness. Returns False when
     nothing can be run. When only the model (or a generated table it imports) no longer compiles,
     the implementation is still compared with the Spec."""
-    ctx.translate(['Consts.v', 'AuthzTable.v'])
+    ctx.translate(['Consts.v', 'AuthzTable.v', 'ServerFlow.v'])
     spec_ok = ctx.build_models(SPEC_MODULES)
     STATE['model_ok'] = ctx.build_models(MODULES) if spec_ok else False
     ctx.prove()
@@ -674,7 +674,8 @@ def coverage(ctx, cases, impl, rule, extra_classes=None):
 # ------------------------------------------------------------------------------------------ sessions with commands
 # a script case is (link, units, auth, script): script entries are frames (tx, dest, pdu) or one of
 # '@min' '@max' (ChangeDecoding), '@shutdown', '@close' (command channel closed), '@block' (writes pend),
-# '@unblock'. While blocked, a frame is followed only by commands until it is resolved.
+# '@unblock', '@failwrite' (the reply write of the next frame fails). While blocked, a frame is followed only
+# by commands until it is resolved.
 def gen_script(r, link):
     base = gen_session(r, link, nframes=r.choice([1, 2, 3, 4, 6]), big_ok=False, raw=0.05)
     script = []
@@ -684,7 +685,10 @@ def gen_script(r, link):
             script.append(r.choice(['@min', '@max']))
         if r.random() < 0.04:
             script.append(r.choice(['@shutdown', '@close']))
-        if r.random() < 0.35:
+        if r.random() < 0.06:
+            script.append('@failwrite')
+            script.append(f)
+        elif r.random() < 0.35:
             script.append('@block')
             script.append(f)
             for _ in range(r.choice([0, 0, 1, 2, 3])):
@@ -719,6 +723,7 @@ def script_coq(case):
     assert base.endswith(', [])')
     evs = []
     blocked = False
+    failing = False
     for x in script:
         if isinstance(x, str):
             if x in ('@min', '@max'):
@@ -727,6 +732,8 @@ def script_coq(case):
                 evs.append('ECommand Shutdown')
             elif x == '@close':
                 evs.append('EClosed')
+            elif x == '@failwrite':
+                failing = True
             elif x == '@block':
                 blocked = True
             elif x == '@unblock':
@@ -737,7 +744,10 @@ def script_coq(case):
             d = 'DBroadcast' if (link == 'rtu' and dest == 0) else f'(DUnit {dest})'
             t = 'None' if tx is None else f'(Some {tx})'
             evs.append(f'EFrame (mkf {t} {d} {_nl(pdu)})')
-            if not blocked:
+            if failing:
+                evs.append('EWriteFailed')
+                failing = False
+            elif not blocked:
                 evs.append('EWriteDone')
     return base[:-len('[])')] + '[' + ';'.join(evs) + '])'
 
@@ -754,5 +764,162 @@ def run_scripts(ctx, cases):
         both = [tuple(x.split('#')) for x in res]
     else:
         res = ctx.coq_eval(SPEC_MODULES, 'run_spec_ev', [script_coq(c) for c in cases], case_type='ecase', per_shard=100)
+        both = [(None, x) for x in res]
+    return impl, norm, both
+
+
+# ------------------------------------------------------------------------------------------ the RTU server task loop (pty, real time)
+# a scenario is (rmin_ms, rmax_ms, units, phases); phases alternate between the port being served and waits:
+#   ('open', probe_pdu_or_None, [pdu, ...], end)    end: 'hup' | 'bad' | 'shutdown' | 'drop' | 'none'
+#   ('wait', [level, ...], probe_pdu_or_None, end)   end: 'elapse' | 'shutdown' | 'drop'   (after a session error)
+#   ('openfail', [level, ...], end)                  the open attempt fails, then the same kind of wait
+# a frame that ends the session with BadFrame and leaves NOTHING in the reader's buffer: right length, wrong CRC.
+# (An unknown function code would leave its tail in the ReadBuffer, which the SAME reader then parses as the
+# start of the next frame after the re-open: that is the reader's business, C05/C06.)
+BAD_RTU_ADU = bytes([1, 3, 0, 0, 0, 1, 0x00, 0x00])
+
+
+def gen_rtu_scenario(r):
+    rmin = 500
+    units = (simple_unit(1, r.choice([1, 3, 7]), r.randrange(1000)),)
+    if r.random() < 0.4:
+        units = units + (shared_unit(2, 1),) if r.random() < 0.5 else units + (simple_unit(2, 5, 9),)
+
+    def pdu():
+        k = r.random()
+        if k < 0.4:
+            return bytes([6] + be(r.randrange(0, 4)) + be(r.randrange(65536)))
+        if k < 0.6:
+            return bytes([5] + be(r.randrange(0, 4)) + be(r.choice([0xFF00, 0])))
+        if k < 0.85:
+            return bytes([3] + be(0) + be(r.choice([1, 4])))
+        return bytes([1] + be(0) + be(r.choice([1, 4, 9])))
+    phases = []
+    if r.random() < 0.25:
+        phases.append(('openfail', [r.choice(['max', 'min']) for _ in range(r.choice([0, 1, 2]))], 'elapse'))
+    n_open = r.choice([1, 2, 2, 3])
+    probe = None
+    for i in range(n_open):
+        last = i == n_open - 1
+        end = r.choice(['none', 'shutdown', 'drop']) if last else r.choice(['hup', 'bad'])
+        phases.append(('open', probe, [(r.choice([u[0] for u in units]), pdu()) for _ in range(r.choice([1, 2, 3]))], end))
+        probe = None
+        if not last or (last and end in ('hup', 'bad')):
+            wend = 'elapse'
+            if i == n_open - 2 and r.random() < 0.3:
+                wend = r.choice(['shutdown', 'drop'])
+            levels = [r.choice(['max', 'min']) for _ in range(r.choice([0, 1, 1, 2, 3]))]
+            if wend == 'elapse' and r.random() < 0.6:
+                probe = (1, bytes([3, 0, 0, 0, 2]))
+            phases.append(('wait', levels, probe, wend))
+            if wend != 'elapse':
+                break
+    return (rmin, 4 * rmin, units, tuple(phases))
+
+
+def rtu_scenario_line(sc, silent=None):
+    """harness line; if `silent` is a list it receives the indexes of recorded entries that must be `-`
+    (a bad frame; a request sent before the wait has elapsed: answering it would mean the wait was cut short)"""
+    rmin, rmax, units, phases = sc
+    if silent is None:
+        silent = []
+    head = to_line(('rtu', units, None, ())).split('|')[1]
+    steps = []
+    fails = 0           # consecutive failed opens (doubling)
+
+    def tx(u, p):
+        return 'tx:' + adu('rtu', (None, u, p)).hex().upper()
+    first = phases[0][0]
+    if first == 'open':
+        steps += ['link', 'sleep:300']
+    else:
+        steps += ['unlink', 'sleep:100']
+    for k, ph in enumerate(phases):
+        nxt = phases[k + 1][0] if k + 1 < len(phases) else None
+        if ph[0] == 'open':
+            _, probe, txs, end = ph
+            if probe is not None:
+                steps.append('rx')
+            steps += [tx(u, p) for u, p in txs]
+            if end == 'bad':
+                silent.append(sum(1 for x in steps if x[:2] in ('tx', 'rx')))
+            steps += {'hup': ['hup'], 'bad': ['txq:' + BAD_RTU_ADU.hex().upper()], 'shutdown': ['shutdown', 'sleep:150'], 'drop': ['drop', 'sleep:150'], 'none': []}[end]
+            fails = 0
+        else:
+            if ph[0] == 'openfail':
+                _, levels, end = ph
+                probe = None
+                delay = rmin * (2 ** fails)
+                fails += 1
+            else:
+                _, levels, probe, end = ph
+                delay = rmin
+            steps += levels
+            if end == 'elapse':
+                if nxt == 'open':
+                    steps.append('link')
+                if probe is not None:
+                    silent.append(sum(1 for x in steps if x[:2] in ('tx', 'rx')))
+                    steps.append('txq:' + tx(*probe)[3:])   # the port is not open yet: nothing may come back
+                steps.append(f'sleep:{delay + 450}')
+            else:
+                steps += [end, 'sleep:150']
+    return f'{rmin}:{rmax}|{head}|' + ','.join(steps)
+
+
+def rtu_scenario_coq(sc):
+    rmin, rmax, units, phases = sc
+    base = to_coq(('rtu', units, None, ()))            # (LRtu, um, us, CNone, [])
+    inner = base[len('(LRtu, '):-len(', CNone, [])')]
+    ns = 1000000
+
+    def ef(u, p):
+        d = 'DBroadcast' if u == 0 else f'(DUnit {u})'
+        return f'EFrame (mkf None {d} {_nl(p)}); EWriteDone'
+    eps = []
+    k = 0
+    fails = 0
+    while k < len(phases):
+        ph = phases[k]
+        if ph[0] == 'openfail':
+            _, levels, end = ph
+            delay = rmin * (2 ** fails) * ns
+            fails += 1
+            w = [f'WCommand (ChangeDecoding {1 if x == "max" else 0})' for x in levels]
+            w.append({'elapse': f'WAdvance {delay}', 'shutdown': 'WCommand Shutdown', 'drop': 'WClosed'}[end])
+            eps.append(f'EpOpenFails [{";".join(w)}]')
+            k += 1
+        else:
+            _, probe, txs, end = ph
+            fails = 0
+            evs = []
+            if probe is not None:
+                evs.append(ef(*probe))
+            evs += [ef(u, p) for u, p in txs]
+            evs += {'hup': ['EReadFailed'], 'bad': ['EReadFailed'], 'shutdown': ['ECommand Shutdown'], 'drop': ['EClosed'], 'none': []}[end]
+            w = []
+            if k + 1 < len(phases) and phases[k + 1][0] == 'wait':
+                _, levels, _, wend = phases[k + 1]
+                w = [f'WCommand (ChangeDecoding {1 if x == "max" else 0})' for x in levels]
+                w.append({'elapse': f'WAdvance {rmin * ns}', 'shutdown': 'WCommand Shutdown', 'drop': 'WClosed'}[wend])
+                k += 1
+            eps.append(f'EpOpen [{";".join(evs)}] [{";".join(w)}]')
+            k += 1
+    return f'({inner}, ({rmin * ns}, {rmax * ns}), [{";".join(eps)}])'
+
+
+def run_rtu_scenarios(ctx, scs):
+    silents = [[] for _ in scs]
+    impl = ctx.harness('rtu_task', [rtu_scenario_line(s, sl) for s, sl in zip(scs, silents)], shards=4, timeout=900)
+    norm = []
+    for i, sl in zip(impl, silents):
+        rep, log, end = split3(i)
+        early = [k for k in sl if k < len(rep) and rep[k] != '-']
+        norm.append(([x for k, x in enumerate(rep) if k not in sl], log, end, early))
+    if STATE['model_ok']:
+        res = ctx.coq_eval(MODULES, 'run_both_task', [rtu_scenario_coq(s) for s in scs], case_type='tcase', per_shard=50)
+        both = [tuple(x.split('#')) for x in res]
+    else:
+        res = ctx.coq_eval(SPEC_MODULES, 'run_spec_task', [rtu_scenario_coq(s) for s in scs], case_type='tcase', per_shard=50)
         both = [(None, x) for x in res]
     return impl, norm, both
